@@ -40,7 +40,7 @@ class Out:
 
 def no_exc(post):
     """State clauses of an outcome reused for a TransportError outcome: those about the original exception are dropped."""
-    return [c for c in post if "exc." not in c.text]
+    return [c for c in post if "exc." not in c.text and c.tag != "canary"]
 
 
 def failing_writes(o):
@@ -112,7 +112,12 @@ def log_text(o):
     return f"appended_if({args})"
 
 
-LOG_ID = "C06+C07+C10/log-exact"
+def log_id(o):
+    """Which property the exact write log of an outcome belongs to: presentation requests are C10's, the rest C06's."""
+    if o.kind in ("MissingNodeError", "MissingChildError"):
+        return "C10/requests-exact" if any("19" in l for _, l in (o.log or [])) else "C06+C10/log-exact"
+    return "C06/log-exact"
+
 
 
 def to_contract(qualname, hs, vidx, command=None, extra_requires=(), check_wf=True, first_param="cls"):
@@ -129,13 +134,14 @@ def to_contract(qualname, hs, vidx, command=None, extra_requires=(), check_wf=Tr
             for o in outs:
                 parts = [f"old({o.guard})"] + [f"({c.text})" for c in o.post] + [log_text(o)]
                 alts.append("(" + " and ".join(parts) + ")")
-            cl.append(P("C06+C08+C10/transport-error-cases", " or ".join(alts)))
+            tags = sorted({("C08" if "release" in o.label else "C10" if "request" in o.label else "C06") for o in outs})
+            cl.append(P("+".join(tags) + "/transport-error-cases", " or ".join(alts)))
         else:
             for o in outs:
                 g = f"old({o.guard})"
                 for c in o.post:
                     cl.append(Clause(c.id, f"implies({g}, {c.text})", c.tag, guard=g))
-                cl.append(Clause(LOG_ID, f"implies({g}, {log_text(o)})", "property", guard=g))
+                cl.append(Clause(log_id(o) if o.log is not None else "C07/log-grows", f"implies({g}, {log_text(o)})", "property", guard=g))
             cl.append(H(f"cases/{kind}", " or ".join(f"old({o.guard})" for o in outs)))
         if kind == "normal":
             cl.insert(0, P("C04/yields-the-message", "result is message"))
@@ -193,6 +199,7 @@ def M(hs, name=None):
             o2.log = (o.log or []) + [("not old(mk in IM)", pr_line())]
             o.post = [c for c in o.post if "dict_only_at(IM" not in c.text and "same_dict(IM" not in c.text]
             o2.post = list(o.post) + [
+                CANARY("C10/canary-never-requests", "log_unchanged()"),
                 P("C10/marked-after-request", "mk in IM"),
                 P("C10/other-markers-untouched", "dict_only_at(IM, mk, key3(n, c, 19))"),
                 H("C10/marker-is-a-presentation-request", "implies(not old(mk in IM), IM[mk].node_id == n and IM[mk].child_id == 255 and IM[mk].message_type == 19)"),
